@@ -758,5 +758,6 @@ func (g *gen) sessions(tier string, texts []string) []core.In[Input] {
 	for i := 0; i < nNames; i++ {
 		out = append(out, g.nameSession(i, g.r.Intn(len(caseBlankTs)), g.r.Bool(), "session-names"))
 	}
+	out = append(out, g.interfieldSessions()...)
 	return out
 }
